@@ -81,16 +81,37 @@ Proof.
   exact (Hgen [] t eq_refl).
 Qed.
 
+(** ** `set_local_mtime(path, secs)`: the file's modification time becomes exactly max(secs, 0) whole seconds after the
+    epoch (when the file can be opened for writing and the time set), nothing otherwise - so a later scan reads [secs] back
+    through `mtime_secs`, which is what keeps the quick check stable across runs *)
+Lemma set_local_mtime_spec (o : option unit) (setm : Z -> option Z) (secs : Z) :
+  g_set_local_mtime o setm secs = match o with Some _ => setm (Z.max secs 0 * NS) | None => None end.
+Proof.
+  unfold g_set_local_mtime, NS. cbv zeta. destruct (Z.leb_spec 0 (Z.max secs 0)) as [_|H]; [|lia].
+  rewrite Z.add_0_l. destruct o; reflexivity.
+Qed.
+
+Lemma set_then_scan_reads_back (sz secs : Z) :
+  0 <= secs <= I64MAX ->
+  option_map (fun ns => g_mtime_secs {| size_of := sz; modified_of := Some ns |}) (g_set_local_mtime (Some tt) Some secs) = Some secs.
+Proof.
+  intros Hs. rewrite set_local_mtime_spec. cbn [option_map]. f_equal. rewrite Z.max_l by lia.
+  rewrite <- (Z.add_0_r (secs * NS)). apply mtime_secs_whole; [exact Hs|unfold NS; lia].
+Qed.
+
 Definition local_scan_is_translation : Prop :=
   (forall sz secs frac, 0 <= secs <= I64MAX -> 0 <= frac < NS ->
      g_mtime_secs {| size_of := sz; modified_of := Some (secs * NS + frac) |} = secs) /\
   (forall m, modified_of m = None \/ (exists ns, modified_of m = Some ns /\ ns < 0) -> g_mtime_secs m = 0) /\
   (forall (frac : list Z -> Z) (t : tree), tsorted t ->
      (forall p f, In (p, f) t -> 0 <= f_mtime f <= I64MAX /\ 0 <= frac p < NS) ->
-     g_discover_local_with_meta (map fst t) (fun p => option_map (fm_of frac p) (t_get p t)) = meta_of t).
+     g_discover_local_with_meta (map fst t) (fun p => option_map (fm_of frac p) (t_get p t)) = meta_of t) /\
+  (forall o setm secs, g_set_local_mtime o setm secs = match o with Some _ => setm (Z.max secs 0 * NS) | None => None end) /\
+  (forall sz secs, 0 <= secs <= I64MAX ->
+     option_map (fun ns => g_mtime_secs {| size_of := sz; modified_of := Some ns |}) (g_set_local_mtime (Some tt) Some secs) = Some secs).
 Lemma local_scan_is_translation_holds : local_scan_is_translation.
 Proof.
-  split; [exact mtime_secs_whole|]. split; [|exact tie_discover_local_with_meta].
+  split; [exact mtime_secs_whole|]. split; [|split; [exact tie_discover_local_with_meta|split; [exact set_local_mtime_spec|exact set_then_scan_reads_back]]].
   intros m [Hn|(ns & Hs & Hneg)]; rewrite mtime_secs_spec; [rewrite Hn; reflexivity|].
   rewrite Hs. destruct (Z.leb_spec 0 ns); [lia|reflexivity].
 Qed.
